@@ -296,7 +296,37 @@ func kernelCases(c *Ctx) {
 		total, p := 8*n, 0
 		var ops []int
 		filled := false
-		for k := 0; k < 60; k++ {
+		// two script families: free scripts (model vs code only) and scripts that keep the decoder's refill
+		// discipline (Vp8lBitReaderFill.wf_script: at most `slack` bits consumed before the next refill,
+		// nothing beyond the data, prefetch strictly inside) - on those the runner also prints the
+		// specification side and C03_bitreader_script_refines_checked applies
+		disciplined := i%2 == 1
+		slack := 56
+		wf := true
+		for k := 0; k < 60 && disciplined; k++ {
+			switch rng.Intn(5) {
+			case 0:
+				b := rng.Range(0, 24)
+				if b <= slack && p+b <= total {
+					ops = append(ops, b)
+					p += b
+					slack = 56
+				}
+			case 1:
+				if p < total {
+					ops = append(ops, -1)
+					slack = max(slack, 32)
+				}
+			default: // symbol-decoder pattern: skip what a prefix code (<= 15 bits) consumed
+				b := rng.Range(0, 15)
+				if b <= slack && p+b <= total {
+					ops = append(ops, -100-b)
+					p += b
+					slack -= b
+				}
+			}
+		}
+		for k := 0; k < 60 && !disciplined; k++ {
 			switch rng.Intn(4) {
 			case 0, 1:
 				b := rng.Range(0, 24)
@@ -343,6 +373,9 @@ func kernelCases(c *Ctx) {
 		c.Case("brd "+hx+sb.String(), got)
 		c.D.Evaluations++
 		c.Count("kernel:lossless-bit-reader-script")
+		if disciplined && wf {
+			c.Count("kernel:lossless-bit-reader-script-keeps-refill-discipline")
+		}
 		if p == total && n > 0 {
 			c.Count("kernel:lossless-bit-reader-script-consumes-every-bit")
 		}
